@@ -33,6 +33,7 @@ import numpy as np
 VERIF = os.path.dirname(os.path.dirname(os.path.abspath(__file__)))
 EXIT_OK, EXIT_VIOLATION, EXIT_HARNESS = 0, 1, 2
 SLACK = Fraction(1, 1000)
+SLACK_LADDER = [Fraction(1, 1000), Fraction(1, 100000), Fraction(2, 10000000)]
 CONC_TOL = 1e-9
 
 
@@ -454,8 +455,20 @@ def _run_task_symbolic(modname, params, opts, t0):
     def body():
         out = mod.scenario(_PK, params, inp)
         cl = mod.claims(params, inp, out, lg)
-        cls = mod.claims(params, inp, out, lgs)
-        for c, cs in zip(cl, cls):
+        slack_cache = {}
+
+        def slack_of(index, kind="claims"):
+            # margin versions of the claims are only built when a claim is violated (levels: 1e-3, 1e-5, 2e-7)
+            def at(level):
+                key = (kind, level)
+                if key not in slack_cache:
+                    fn = mod.claims if kind == "claims" else mod.canaries
+                    slack_cache[key] = fn(params, inp, out, SymLogic(SLACK_LADDER[level]))
+                lst = slack_cache[key]
+                return lst[index][1] if index < len(lst) else None
+            return at
+        for ci, c in enumerate(cl):
+            cs = (None, slack_of(ci))
             name, f = c[0], c[1]
             sig = c[2] if len(c) > 2 else None
             if z3.is_true(lg.truth(f)):
@@ -468,9 +481,9 @@ def _run_task_symbolic(modname, params, opts, t0):
             else:
                 eng.prove(name, f, slack_claim=cs[1], bound=1000, info={"sig": sig})
         if do_canary and hasattr(mod, "canaries"):
-            for c, cs in zip(mod.canaries(params, inp, out, lg), mod.canaries(params, inp, out, lgs)):
+            for ci, c in enumerate(mod.canaries(params, inp, out, lg)):
                 canary_names.add(c[0])
-                eng.prove(c[0], c[1], slack_claim=cs[1], bound=1000, info={"canary": True})
+                eng.prove(c[0], c[1], slack_claim=slack_of(ci, "canaries"), bound=1000, info={"canary": True})
         return out
 
     if do_profile:
